@@ -194,6 +194,78 @@ def _elim(stmts):
     return None
 
 
+def _sink_local(source, toks, src, bopen, bclose, name, edits, report):
+    """R17: `name` is an immutable local of the enclosing function, bound by `let name[: T] = EXPR;` at the top level of its body, and
+    a lifted closure / fragment uses it without containing the binding (a computation hoisted out of a closure or loop). When EXPR
+    reads no `self`, no `mut` binding, and has no `?` / `.await` / block, every later use of `name` is replaced by `(EXPR)`: the only
+    difference is WHEN EXPR is evaluated, which such an EXPR cannot observe except through the outside world (clock, environment)."""
+    k = bopen + 1
+    depth = 0
+    found = None
+    while k < bclose:
+        t = toks[k]
+        if t.text in ("(", "[", "{"):
+            depth += 1
+        elif t.text in (")", "]", "}"):
+            depth -= 1
+        elif depth == 0 and t.kind == "ident" and t.text == "let" and toks[k + 1].text == name and toks[k + 2].text in ("=", ":"):
+            j = k + 2
+            d2 = 0
+            eq = None
+            while j < bclose:
+                tj = toks[j].text
+                if tj in ("(", "[", "{", "<"):
+                    d2 += 1
+                elif tj in (")", "]", "}", ">"):
+                    d2 -= 1
+                elif tj == "=" and d2 == 0 and eq is None:
+                    eq = j
+                elif tj == ";" and d2 == 0:
+                    break
+                j += 1
+            if eq is not None and j < bclose:
+                found = (k, eq, j)
+            break
+        k += 1
+    if found is None:
+        return False
+    k, eq, semi = found
+    etoks = toks[eq + 1:semi]
+    if not etoks:
+        return False
+    if any(t.text in ("?", "{", "|", "||") for t in etoks) or any(t.kind == "ident" and t.text in ("self", "await", "mut", "return", "move") for t in etoks):
+        return False
+    # variables read by EXPR must not be mutable anywhere in the function
+    for q, t in enumerate(etoks):
+        if t.kind != "ident" or not re.match(r"^[a-z_][a-z0-9_]*$", t.text):
+            continue
+        prev = etoks[q - 1].text if q else ""
+        nxt = etoks[q + 1].text if q + 1 < len(etoks) else ""
+        if prev in (".", "::") or nxt in ("(", "::", "!"):
+            continue
+        for m in range(bopen - 200 if bopen > 200 else 0, bclose):
+            if toks[m].text == "mut" and toks[m + 1].text == t.text:
+                return False
+    # the name must not be bound again (shadowed) or assigned after the binding
+    for m in range(semi, bclose):
+        if toks[m].kind == "ident" and toks[m].text == name:
+            if toks[m - 1].text in ("let", "mut", "|", "ref") or (toks[m + 1].text == "=" ) or toks[m + 1].text in ("+=", "-="):
+                return False
+    expr = src[toks[eq + 1].start:toks[semi - 1].end]
+    n = 0
+    for m in range(semi, bclose):
+        t = toks[m]
+        if t.kind == "ident" and t.text == name and toks[m - 1].text not in (".", "::") and toks[m + 1].text not in ("::", "(", "!") \
+                and not (toks[m + 1].text == ":" and toks[m - 1].text in ("{", ",")):
+            # `{name}` inside a format string is not a token, so log lines keep naming the (still existing) local
+            edits.append((t.start, t.end, "(" + expr + ")"))
+            n += 1
+    if not n:
+        return False
+    report.append(("R17-sink-local", f"{n} use(s) of the immutable local `{name}` (bound at line {source.line_of(toks[k].start)} outside the closure / fragment) replaced by its initialiser `{expr[:60]}`"))
+    return True
+
+
 def _receiver_start(toks, dot_idx):
     """start of the simple postfix expression ending just before the `.` at dot_idx: identifiers, field accesses, `*`/`&` prefixes are
     NOT included; a call or index in the chain makes the receiver not simple (None)"""
@@ -229,6 +301,8 @@ def inline_helpers(source, qual, names):
                     edits.append((toks[bopen].end, toks[bopen].end, "\n" + text + "\n"))
                     report.append(("R15-const", f"constant {name} (line {source.line_of(toks[i].start)}) bound at the top of the body"))
                     break
+            continue
+        if _sink_local(source, toks, src, bopen, bclose, name, edits, report):
             continue
         h = _helper(toks, type_name, name)
         h_toks, h_src, h_where = toks, src, None
